@@ -715,12 +715,12 @@ def weave_fn(w, item_id, text, spec, log):
         inv = norm_clauses(ls.get('invariant'), 'invariant', props)
         for c in inv:
             c.label = 'loop%d/%s' % (k, c.label)
-        s += w.clause_block(item_id, ls.get('invariant_kw', 'invariant'), inv, '        ')
         if ls.get('invariant_except_break'):
             ieb = norm_clauses(ls['invariant_except_break'], 'invariant', props)
             for c in ieb:
                 c.label = 'loop%d/%s' % (k, c.label)
             s += w.clause_block(item_id, 'invariant_except_break', ieb, '        ')
+        s += w.clause_block(item_id, ls.get('invariant_kw', 'invariant'), inv, '        ')
         if ls.get('ensures'):
             le = norm_clauses(ls['ensures'], 'invariant', props)
             for c in le:
